@@ -72,6 +72,17 @@ lamb in {1e-13 .. 1e6}, d = 5, 6 (8 thorough), mode sizes 12 (30 thorough), rank
 them, single-sample slices with a weight vector; adaptive mode with e_adap in {1e-1, 1e-12}, r_add in {0, 2}, ragged
 initial rank profiles, scaled data; als_func with own basis functions (fh: one function / a list of d functions).
 
+Input FORMS (opt keys y0 / iform / yform / wform / num / call of _als, a0 / xform / yform / num / call of _alsf; the problem seen by
+the oracles is the float64 image of what is passed): value-preserving forms - Y0 / A0 as tuple, read-only, Fortran-ordered,
+non-contiguous cores; I as uint8 / int32 / Fortran-ordered / non-contiguous / read-only array or tuple of tuples; y as int64 array /
+list of Python ints (integer-valued data) / view / read-only; w as float32 / view / read-only; nswp, e, e_vld, r, r_add, e_adap,
+lamb (a, b, n_max) as np.int64 / np.float64, np.int32 / np.float32 (lamb a float32 value), 0-d arrays; nswp, e, info positionally -
+run through shape, descent, last-core optimality, restart, permutation, duplicates, adaptive ranks, info_stop (als) and descent,
+optimality, restart, permutation (als_func) with the unchanged tolerances; rounding forms - float32 cores everywhere / at even /
+at odd positions: shape, adaptive ranks, info_stop, and last-core optimality (residual 1e-10 when core 1 is float64; the
+unchanged library returns a float32 core for a float32 core of Y0, i.e. the float32 rounding of the minimiser: 1e-6 then).
+C07.als.y0_integer_dtype (replay only, DOUBTFUL): an integer-dtype start raises in the constant-rank mode.
+
 Samples: every general clause uses training lists in which the sample at position 0 is not the only sample of
 any slice (single-sample slices at positions >= 1 do occur), so that the known defect is confined to its clause.
 Tolerances: every core update solves ridge systems of condition kappa = (|A^T W A| + lamb) / lamb with a
@@ -100,7 +111,10 @@ BOUNDS = ('als: d in 2..4 (5, 6; 8 thorough), n_k in 1..4 (12; 30 thorough), ran
           '{0,1e-6,1,1e10} without / with half a validation set (als: 5 shapes, both modes; als_func: 3 configurations); '
           'adaptive mode on sparse lists: a pair of neighbouring indices with ONE sample at list position first / last / middle / '
           'second (thorough: any), every bond of 4 shapes (13 thorough, d = 3..5), alone at one bond / at all bonds, other pairs '
-          'covered 2x / 1x (+6 random samples), rank cap binding (r < n_0, n_d-1) or no truncation (r = full, e_adap 0 / 1e-14)')
+          'covered 2x / 1x (+6 random samples), rank cap binding (r < n_0, n_d-1) or no truncation (r = full, e_adap 0 / 1e-14); input '
+          'forms: 18 value-preserving combinations (tuple / read-only / F / view cores, uint8 / int32 / F / view / tuple indices, int '
+          'values, float32 / view weights, NumPy-scalar / 0-d options, positional nswp / e / info) x 2 (4 thorough) shapes through 8 '
+          'als clauses, 4 float32-core forms x 4 shapes through 4 clauses, 15 forms of als_func through 4 clauses (323 quick cases)')
 
 ALS = ('als.als', 'als._optimize_core', 'als._lstsq', 'utils._info_appr')
 ALSF = ('als_func.als_func', 'als_func._optimize_core', 'utils._info_appr')
@@ -272,6 +286,17 @@ def _problem(n, r, m, lamb, weighted, seed, mult=1, opt=None):
         Y0 = [G * f0 for G in Y0]
     if opt.get('form') == 'f32':
         y = y.astype(np.float32).astype(float)
+    # input FORMS (see _als): the problem handed to the oracles is the float64 image of what _als passes
+    if 'int' in str(opt.get('yform')):
+        y = np.rint(3.0 * y)                    # integer-valued values (passed as int64 array / list of Python ints)
+    if 'f32' in str(opt.get('yform')):
+        y = y.astype(np.float32).astype(float)
+    if w is not None and 'f32' in str(opt.get('wform')):
+        w = w.astype(np.float32).astype(float)
+    if opt.get('y0'):
+        if any(t in opt['y0'] for t in ('i64', 'i32', 'imixed')):
+            Y0 = [np.rint(3.0 * G) for G in Y0]
+        Y0 = gen.tt_form(Y0, opt['y0'])[1]
     return I, y, w, Y0
 
 
@@ -299,6 +324,14 @@ def _als(opt, I, y, Y0, **kw):
            'i8' (int8 indices);
     order  memory layout of the cores of Y0: 'F' or 'V' (non-contiguous views);
     wint   integer-typed weight vector (only used with integer-valued weights);
+    y0     form of the cores of Y0 (gen.tt_form: 'f32', 'mixed' = cores 0, 2, .. float32, 'mixed1', 'ro', 'F', 'V', 'tuple', joined
+           by '+'; float32 cores hold the float32 rounding of what _problem returned - _problem rounds first);
+    iform  form of I (and I_vld) (gen.idx_form: 'i32', 'u8', 'F', 'V', 'ro', 'list', 'tuple' joined by '+');
+    yform  form of y (and y_vld) (gen.val_form: 'int' / 'intlist' (integer-valued y only, else left as it is), 'f32', 'V', 'ro', 'list');
+    wform  form of the weight vector ('f32', 'V', 'ro');
+    num    'np64' / 'np32' / '0d': nswp, e, e_vld, r, r_add, e_adap, lamb, swap_tol as NumPy scalars / 0-d arrays (a value that is
+           no float32 / int32 value goes as 64-bit scalar);
+    call   'pos': nswp, e, info positionally in the documented order (als(I, y, Y0, nswp, e, info, ...));
     kw     extra keyword arguments of als (e.g. use_stab, log, allow_skip_cores, swap_tol, e_adap, r_add);
            output of log=True / the experimental options is swallowed."""
     opt = opt or {}
@@ -317,6 +350,34 @@ def _als(opt, I, y, Y0, **kw):
         kw['w'] = np.asarray(w).astype(int)
     Y0 = _layout(Y0, opt.get('order'))
     kw.update(opt.get('kw') or {})
+    if opt.get('y0'):
+        Y0 = gen.tt_form(Y0, opt['y0'])[0]
+    if opt.get('iform'):
+        I = gen.idx_form(I, opt['iform'])
+        if kw.get('I_vld') is not None:
+            kw['I_vld'] = gen.idx_form(kw['I_vld'], opt['iform'])
+    if opt.get('yform'):
+        def yf(v):
+            v = np.asarray(v, dtype=float)
+            spec = opt['yform']
+            if 'int' in spec and not np.all(v == np.rint(v)):
+                spec = '+'.join(t for t in spec.split('+') if t not in ('int', 'intlist'))
+            return gen.val_form(v, spec)[0]
+        y = yf(y)
+        if kw.get('y_vld') is not None:
+            kw['y_vld'] = yf(kw['y_vld'])
+    if kw.get('w') is not None and opt.get('wform'):
+        kw['w'] = np.asarray(gen.val_form(kw['w'], opt['wform'])[0])
+    if opt.get('num'):
+        kw = gen.num_kwargs(kw, opt['num'], ('nswp', 'e', 'e_vld', 'r', 'r_add', 'e_adap', 'lamb', 'swap_tol'))
+    if opt.get('call') == 'pos':
+        pos = (kw.pop('nswp', 50), kw.pop('e', 1.E-16), kw.pop('info', {}))
+        inner = teneva.als
+        if kw.get('log') or kw.get('allow_swap'):
+            import contextlib, io
+            with contextlib.redirect_stdout(io.StringIO()):
+                return inner(I, y, Y0, *pos, **kw)
+        return inner(I, y, Y0, *pos, **kw)
     if kw.get('log') or kw.get('allow_swap'):
         import contextlib, io
         with contextlib.redirect_stdout(io.StringIO()):
@@ -370,8 +431,10 @@ def last_core_optimal(n, r, m, lamb, weighted, nswp, seed, opt=None):
     I, y, w, Y0 = _problem(n, r, m, lamb, weighted, seed, opt=opt)
     lamb = _lamb(lamb, len(n), opt)
     Y = _als(opt, I, y, Y0, nswp=nswp, e=None, lamb=lamb, w=w)
-    res = _slice_residuals(Y, I, y, lamb, w, 1)
-    bad = {j: v for j, v in res.items() if not v <= 1e-10}
+    res = _slice_residuals([np.asarray(G, dtype=float) for G in Y], I, y, lamb, w, 1)
+    # (a float32 core 1 of Y0 is returned as float32 array by the unchanged library: the minimiser rounded to float32)
+    tol = 1e-6 if np.asarray(Y[1]).dtype == np.float32 and any(t in str((opt or {}).get('y0')) for t in ('f32', 'mixed1')) else 1e-10
+    bad = {j: v for j, v in res.items() if not v <= tol}
     if bad:
         j = max(bad, key=bad.get)
         cnt = int(np.sum(I[:, 1] == j))
@@ -598,6 +661,30 @@ def adaptive_ranks(n, r0, r, r_add, m, lamb, weighted, nswp, seed, kind, opt=Non
     info = {}
     Y = _als(opt, I, y, Y0, nswp=nswp, e=None, info=info, r=r, r_add=r_add, lamb=lamb, w=w)
     msg = _adaptive_result(Y, Y0, info, n, r, nswp)
+    return check(msg is None, msg)
+
+
+# DOUBTFUL (disabled: replay_only, no case is generated; see the report of the input-form audit).  An initial approximation whose
+# cores have an INTEGER dtype (the same tensor as its float64 copy) makes the constant-rank mode raise UFuncTypeError (the updated
+# core is written into an int64 copy of the core - the solution would be truncated - and teneva.sub, called through accuracy(),
+# multiplies an int64 core in place by -1.); the rank-adaptive mode accepts it.  Whether an integer-dtype list of cores is a
+# "TT-tensor" in the sense of the docstring ("Y0 (list): TT-tensor") is not settled by the property text.
+@clause('C07.als.y0_integer_dtype', funcs=('als.als', 'als._optimize_core'), replay_only=True)
+def y0_integer_dtype(n, r, m, lamb, nswp, seed, form='i64'):
+    """als started from integer-valued cores of dtype int64 / int32 returns what it returns for their float64 copy."""
+    I, y, w, Y0 = _problem(n, r, m, lamb, False, seed, opt={'y0': form})
+    Yf = teneva.als(I, y, Y0, nswp=nswp, e=None, lamb=lamb)
+    try:
+        Yi = teneva.als(I, y, gen.tt_form(Y0, form)[0], nswp=nswp, e=None, lamb=lamb)
+    except Exception as e:
+        return FAIL(f'integer-dtype start ({form}) raises {type(e).__name__}: {e}; the float64 copy of the same tensor is accepted')
+    msg = gen.wf(Yi, n) or _nonfinite(('integer-dtype start', Yi))
+    if msg:
+        return FAIL(msg)
+    kap = _kappa([Y0, Yf], I, lamb, None)
+    if kap > KAPPA_MAX:
+        return _ill(kap)
+    msg = _same_result(Yf, Yi, kap, f'float64 start vs the same start as {form}')
     return check(msg is None, msg)
 
 
@@ -1144,6 +1231,10 @@ def _fproblem(d, nm, r, m, seed, box, opt=None):
     X = g.uniform(a + 1e-9 * (b - a), b - 1e-9 * (b - a), size=(m, d))
     y = g.normal(size=m) * float(opt.get('yscale', 1.0))
     A0 = gen.tt([nm] * d, r, seed, 'gauss')
+    if 'int' in str(opt.get('yform')):
+        y = np.rint(3.0 * y)
+    if opt.get('a0'):
+        A0 = gen.tt_form(A0, opt['a0'])[1]      # (float64 image of the form that _alsf passes)
     if opt.get('fh'):
         H = [_basis(opt['fh'], k, nm)(X[:, k]).T for k in range(d)]
     else:
@@ -1164,11 +1255,43 @@ def _alsf(opt, X, y, A0, box, **kw):
         X, y = np.asarray(X).tolist(), np.asarray(y).tolist()
     A0 = _layout(A0, opt.get('order'))
     kw.update(opt.get('kw') or {})
+    # input FORMS: a0 (gen.tt_form spec of the cores of A0), xform ('F' / 'V' / 'ro' / 'list' layout of the point array), yform
+    # (gen.val_form spec of y), num ('np64' / 'np32' / '0d': a, b, nswp, e, e_vld, lamb, n_max as NumPy scalars), call='pos'
+    # (a, b, nswp, e, info positionally in the documented order)
+    if opt.get('a0'):
+        A0 = gen.tt_form(A0, opt['a0'])[0]
+    if opt.get('xform'):
+        X = np.array(X, dtype=float)
+        for t in opt['xform'].split('+'):
+            if t == 'F':
+                X = np.asfortranarray(X)
+            elif t == 'V':
+                big = np.full((2 * X.shape[0], 2 * X.shape[1] + 1), 0.125)
+                big[::2, 1::2] = X
+                X = big[::2, 1::2]
+            elif t == 'ro':
+                X.flags.writeable = False
+            elif t == 'list':
+                X = X.tolist()
+    if opt.get('yform'):
+        v = np.asarray(y, dtype=float)
+        spec = opt['yform']
+        if 'int' in spec and not np.all(v == np.rint(v)):
+            spec = '+'.join(t for t in spec.split('+') if t not in ('int', 'intlist'))
+        y = gen.val_form(v, spec)[0]
+    a, b = box[0], box[1]
+    if opt.get('num'):
+        kw = gen.num_kwargs(kw, opt['num'], ('nswp', 'e', 'e_vld', 'lamb', 'n_max'))
+        if opt['num'] != '0d':      # (an ndarray a / b is documented as the list of per-dimension bounds of length d: no 0-d form)
+            a, b = gen.num_kwargs({'a': a, 'b': b}, opt['num'], ('a', 'b')).values()
+    args = (a, b)
+    if opt.get('call') == 'pos':
+        args = (a, b, kw.pop('nswp', 50), kw.pop('e', 1.E-16), kw.pop('info', {}))
     if kw.get('log'):
         import contextlib, io
         with contextlib.redirect_stdout(io.StringIO()):
-            return teneva.als_func(X, y, A0, box[0], box[1], **kw)
-    return teneva.als_func(X, y, A0, box[0], box[1], **kw)
+            return teneva.als_func(X, y, A0, *args, **kw)
+    return teneva.als_func(X, y, A0, *args, **kw)
 
 
 @clause('C07.als_func.descent', funcs=ALSF)
@@ -1592,6 +1715,70 @@ def cases(tier, seed):
         yield 'C07.als_func.update_sol', dict(d=d, nm=nm, r=r, m=40, lamb=LAMBS[1 + k % 5], nswp=3, seed=sd(),
                                               box=[-1.0, 1.0])
         yield 'C07.als_func.defaults', dict(d=d, nm=nm, r=r, m=40, seed=sd())
+    # (N) input FORMS: Y0 with float32 / mixed float32-float64 / read-only / F-ordered / non-contiguous cores or as a tuple, I as
+    # uint8 / Fortran-ordered / non-contiguous / read-only / tuple, y as int64 array / list of Python ints / view / read-only, w as
+    # float32 / view / read-only, every numeric option as NumPy scalar / 0-d array, nswp / e / info positionally
+    gf = gen.rng('C07forms', seed)
+
+    def sf():
+        return int(gf.integers(1 << 30))
+
+    exact = [{'y0': 'tuple'}, {'y0': 'ro'}, {'y0': 'F+ro+tuple'}, {'y0': 'V+ro'}, {'iform': 'u8+F'}, {'iform': 'V+ro'},
+             {'iform': 'tuple'}, {'iform': 'i32+F+ro'}, {'yform': 'int'}, {'yform': 'intlist'}, {'yform': 'V+ro'},
+             {'wform': 'f32'}, {'wform': 'V+ro'}, {'num': 'np64'}, {'num': 'np32'}, {'num': '0d'}, {'call': 'pos'},
+             {'y0': 'ro+tuple', 'iform': 'u8+V', 'yform': 'int+ro', 'wform': 'f32+V', 'num': 'np32', 'call': 'pos'}]
+    rounded = [{'y0': 'f32'}, {'y0': 'mixed'}, {'y0': 'mixed1+V'}, {'y0': 'f32+tuple', 'num': 'np32', 'call': 'pos'}]
+    flambs = (0.0625, 0.5, 0.001953125, 0.01)           # (the first three are float32 values: they go as np.float32 with 'np32')
+    fsh = [[3, 4], [2, 3, 2], [4, 1, 3], [2, 2, 2, 2]] + ([[2, 2], [3, 3, 3], [1, 3]] if big else [])
+    for j, o in enumerate(exact):
+        for q, n in enumerate(fsh):
+            if not big and (j + q) % 2:
+                continue
+            k += 1
+            base = dict(n=n, r=1 + k % 3, m=int(gf.integers(0, 40)), lamb=flambs[k % 4], weighted=bool(k % 2) or 'wform' in o,
+                        nswp=3, seed=sf(), opt=o)
+            yield 'C07.als.constant_rank_shape', base
+            yield 'C07.als.descent', base
+            yield 'C07.als.last_core_optimal', dict(base, nswp=1 + k % 3)
+            yield 'C07.als.restart', base
+            yield 'C07.als.permutation', dict(base, pseed=sf())
+            if (j + q) % 4 < 2 or big:
+                yield 'C07.als.duplicates_as_weights', {u: v for u, v in dict(base, m=int(gf.integers(0, 25))).items() if u != 'weighted'}
+            if len(n) >= 3:
+                yield 'C07.als.adaptive_ranks', dict(n=n, r0=1 + k % 2, r=2 + k % 2, r_add=(10000, 1)[k % 2], m=int(gf.integers(0, 30)),
+                                                     lamb=flambs[k % 4], weighted=bool(k % 2) or 'wform' in o, nswp=2,
+                                                     seed=sf(), kind=('noise', 'lowrank')[k % 2], opt=o)
+            if q == j % 2 or big:
+                yield 'C07.als.info_stop', dict(n=n, r=2, m=int(gf.integers(5, 40)), lamb=flambs[k % 4], nswp=3, seed=sf(),
+                                                adaptive=len(n) >= 3 and bool(k % 2), opt=o)
+    for j, o in enumerate(rounded):
+        for q, n in enumerate(fsh):
+            k += 1
+            base = dict(n=n, r=1 + k % 3, m=int(gf.integers(0, 40)), lamb=flambs[k % 4], weighted=bool(k % 2), nswp=3, seed=sf(), opt=o)
+            yield 'C07.als.constant_rank_shape', base
+            yield 'C07.als.last_core_optimal', dict(base, nswp=1 + k % 3)
+            if len(n) >= 3:
+                yield 'C07.als.adaptive_ranks', dict(n=n, r0=1 + k % 2, r=2 + k % 2, r_add=(10000, 1)[k % 2], m=int(gf.integers(0, 30)),
+                                                     lamb=flambs[k % 4], weighted=bool(k % 2), nswp=2, seed=sf(),
+                                                     kind=('noise', 'lowrank')[k % 2], opt=o)
+            if q == j % 4 or big:
+                yield 'C07.als.info_stop', dict(n=n, r=2, m=int(gf.integers(5, 40)), lamb=flambs[k % 4], nswp=3, seed=sf(),
+                                                adaptive=False, opt=o)
+    fexact = [{'a0': 'tuple'}, {'a0': 'ro'}, {'a0': 'F+ro+tuple'}, {'a0': 'V'}, {'xform': 'F'}, {'xform': 'V+ro'}, {'yform': 'int'},
+              {'yform': 'intlist'}, {'yform': 'V+ro'}, {'num': 'np64'}, {'num': 'np32'}, {'num': '0d'}, {'call': 'pos'},
+              {'a0': 'ro+tuple', 'xform': 'F+ro', 'yform': 'int+ro', 'num': 'np32', 'call': 'pos'}, {'a0': 'mixed'}]
+    for j, o in enumerate(fexact):
+        for q, (d, nm, r) in enumerate(((2, 3, 2), (3, 3, 2), (3, 2, 3)) + (((4, 3, 2), (2, 4, 1)) if big else ())):
+            if not big and (j + q) % 3:
+                continue
+            k += 1
+            base = dict(d=d, nm=nm, r=r, m=int(gf.integers(30, 61)), lamb=flambs[k % 4], nswp=3, seed=sf(),
+                        box=[[-1.0, 1.0], [0.0, 0.5]][k % 2], opt=o)
+            yield 'C07.als_func.descent', base
+            yield 'C07.als_func.last_core_optimal', dict(base, nswp=1 + k % 3)
+            if o.get('a0') != 'mixed':
+                yield 'C07.als_func.restart', base
+                yield 'C07.als_func.permutation', dict(base, pseed=sf())
     # (M) a threshold for a stop criterion that cannot be evaluated: e_vld without a (complete) validation set
     evs = (0.0, 1e-6, 1.0, 1e+10)
     for n in ([2, 2], [3, 4], [2, 3, 2], [4, 1, 3], [2, 2, 2, 2]) + (([1, 3], [3, 3, 3], [3, 2, 1, 3]) if big else ()):
